@@ -133,6 +133,20 @@ def parseOp (j : Json) : Except String (Op CQ) := do
   | "writeCell" => do pure (.writeCell (← fldN j "h") (← fldN j "p") (← getCQ (← fld j "v")))
   | "setGhosts" => do pure (.setGhosts (← fldN j "h") (← getL getOptCQ (← fld j "vals")))
   | "component" => do pure (.component (← fldN j "h") (← fldN j "c"))
+  | "tcomponent" => do pure (.tcomponent (← fldN j "h") (← fldN j "i") (← fldN j "j"))
+  | "applyOperator" => do
+    let out : Option Nat := match fldOpt j "out" with
+      | some (.num n) => if n.exponent = 0 && n.mantissa ≥ 0 then some n.mantissa.toNat else none
+      | _ => none
+    pure (.applyOperator (← fldN j "h") (← getL getOptCQ (← fld j "ghosts"))
+      (← parseCls (← fldS j "cls")) out (← fldCQs j "vals"))
+  | "derive" => do
+    pure (.derive (← fldN j "h") (← parseCls (← fldS j "cls")) (← fldB j "cplx") (← fldCQs j "vals"))
+  | "applyFn" => do
+    let out : Option Nat := match fldOpt j "out" with
+      | some (.num n) => if n.exponent = 0 && n.mantissa ≥ 0 then some n.mantissa.toNat else none
+      | _ => none
+    pure (.applyFn (← fldN j "h") out (← fldCQs j "vals"))
   | "mkColl" => do pure (.mkColl (← fldNs j "hs") (← fldB j "copy") (← optDT j "dt"))
   | "slice" => do pure (.slice (← fldN j "c") (← fldNs j "idx"))
   | "append" => do pure (.append (← fldN j "c") (← fldNs j "hs"))
@@ -179,17 +193,24 @@ def aliasPairs (s : State CQ) : List Json :=
         some (Json.arr #[toJson i, toJson j, toJson ((b.view.off : Int) - (a.view.off : Int))])
       else none))
 
+/-- objects whose `data` array (`_data_valid`) is not carved from their current padded array
+(`State.dviews`; empty in every reachable state: theorem `data_is_live_view`) -/
+def staleData (s : State CQ) : List Nat :=
+  (s.objs.zipIdx).filterMap (fun (o, i) => if s.dviews[i]? == some o.view then none else some i)
+
 def replay (G : List Grid) : State CQ → List Snap → List (Op CQ) → List Json
   | _, _, [] => []
   | s, prev, op :: ops =>
     match step G s op with
     | .error e =>
       Json.mkObj [("err", Json.str (showErr e)), ("n", toJson s.objs.length),
-        ("ch", Json.arr #[]), ("al", Json.arr (aliasPairs s).toArray)] :: replay G s prev ops
+        ("ch", Json.arr #[]), ("al", Json.arr (aliasPairs s).toArray),
+        ("stale", toJson (staleData s))] :: replay G s prev ops
     | .ok s' =>
       let snap := snapshot s'
       Json.mkObj [("err", Json.null), ("n", toJson s'.objs.length),
-        ("ch", Json.arr (changed prev snap).toArray), ("al", Json.arr (aliasPairs s').toArray)]
+        ("ch", Json.arr (changed prev snap).toArray), ("al", Json.arr (aliasPairs s').toArray),
+        ("stale", toJson (staleData s'))]
         :: replay G s' snap ops
 
 /-- {"grids":[{"mask":"0110","dim":1},..],"ops":[..]} -> one record per operation -/
